@@ -62,7 +62,9 @@ func (f *c12failStore) GetByIP(ctx context.Context, ip net.IP) (*allocator.Alloc
 func (f *c12failStore) GetPoolUtilization(ctx context.Context, p string) (int, int, error) {
 	return f.inner.GetPoolUtilization(ctx, p)
 }
-func (f *c12failStore) ListPools(ctx context.Context) ([]string, error) { return f.inner.ListPools(ctx) }
+func (f *c12failStore) ListPools(ctx context.Context) ([]string, error) {
+	return f.inner.ListPools(ctx)
+}
 
 func c12GenPool(r *sim.Rand, cs *sim.Case, n int) {
 	cs.Knobs["pool"] = int64(r.N(2))
